@@ -29,7 +29,8 @@ type nilCtx struct {
 	spInvOK     bool                              // constructor invariant: registered providers have Metadata and Metadata.SPSSODescriptor
 	chainFx     map[*ssa.Function]map[string]bool // closure -> access paths known non-nil on entry (facts of earlier steps)
 	callers     map[*ssa.Function][]ssa.CallInstruction
-	established map[string]bool // "<owner>.field" of configuration fields a constructor leaves non-nil on every success path
+	zeroFld     map[*types.Var]string // pointer-like field of a module struct -> an allocation in scope that leaves it unset
+	established map[string]bool       // "<owner>.field" of configuration fields a constructor leaves non-nil on every success path
 }
 
 func isXMLModelStruct(t types.Type) bool {
@@ -64,6 +65,49 @@ func (nc *nilCtx) mayBeNil(v ssa.Value) bool {
 		nc.memo[v] = 3
 	}
 	return res
+}
+
+// zeroAtAlloc: pointer-like fields of module structs that some allocation in scope leaves unset -> where.
+func (nc *nilCtx) zeroAtAlloc() map[*types.Var]string {
+	if nc.zeroFld != nil {
+		return nc.zeroFld
+	}
+	nc.zeroFld = map[*types.Var]string{}
+	for f := range nc.scope {
+		for _, b := range f.Blocks {
+			for _, in := range b.Instrs {
+				al, ok := in.(*ssa.Alloc)
+				if !ok {
+					continue
+				}
+				st, isSt := derefType(al.Type()).Underlying().(*types.Struct)
+				n := namedOf(derefType(al.Type()))
+				if !isSt || n == nil || n.Obj().Pkg() == nil || !isModulePath(n.Obj().Pkg().Path()) || isXMLModelStruct(derefType(al.Type())) {
+					continue
+				}
+				// a cell that only receives whole values (a by-value copy) is not an allocation of a new object
+				whole := false
+				for _, ref := range nonDebugRefs(al) {
+					if s, isS := ref.(*ssa.Store); isS && s.Addr == ssa.Value(al) {
+						whole = true
+					}
+				}
+				if whole {
+					continue
+				}
+				for i := 0; i < st.NumFields(); i++ {
+					fld := st.Field(i)
+					if !isPtrLike(fld.Type()) {
+						continue
+					}
+					if !nc.fieldSetAtAlloc(al, i) && nc.zeroFld[fld] == "" {
+						nc.zeroFld[fld] = nc.cx.W.InstrPos(al)
+					}
+				}
+			}
+		}
+	}
+	return nc.zeroFld
 }
 
 func (nc *nilCtx) note(v ssa.Value, s string) bool {
@@ -145,6 +189,13 @@ func (nc *nilCtx) mayBeNil0(v ssa.Value) bool {
 					}
 				}
 				return nc.note(v, fmt.Sprintf("optional element/record field %s.%s of an object filled from outside (absent element => nil)", owner, fv.Name()))
+			}
+			if outside && !constructed && !isXMLModelStruct(a.X.Type()) && isPtrLike(x.Type()) {
+				// a method reached through an interface (storage calling back into *Attributes) sees objects the
+				// handlers allocated: if some allocation in scope leaves this field at its zero value, it can be nil here
+				if at := nc.zeroAtAlloc()[fv]; at != "" {
+					return nc.note(v, fmt.Sprintf("field %s.%s, which the allocation at %s leaves nil", owner, fv.Name(), at))
+				}
 			}
 			if outside && !constructed && !isXMLModelStruct(a.X.Type()) {
 				// optional configuration: a pointer field of one of the module's *Config structs is nil when the
